@@ -24,7 +24,7 @@ from ..state import State, Obj, IntV, PtrV, NULL, MAXLEN
 from ..terms import Lin, ZERO
 from . import own
 from .c08 import string_scene, SliceHooks
-from .common import short, fn_loc, robust
+from .common import short, fn_loc, robust, unit_models
 
 LEVEL = 'other'
 EXPLANATION = ('per-iteration step summaries of the scan loops and per-path call-site facts of the front ends by abstract interpretation '
@@ -228,9 +228,40 @@ def char_scan(run, m, F, E):
                     p2.append('gives up at position %r before the end of the haystack' % (cur[0][1].off,))
             else:
                 und.append('return value not tracked')
+    # the hit test itself: a unit is taken iff it equals the wanted character after folding A-Z to a-z (finite case analysis over
+    # all (unit, character) pairs each path admits - extensions and comparisons of the two values included)
+    def fold(x):
+        x &= 0xFF
+        return x + 32 if 0x41 <= x <= 0x5A else x
+    cha = ch.lin.single_atom()[0] if ch.lin.single_atom() else None
+    for o in outs:
+        s2 = o.st
+        if o.kind not in ('backedge', 'ret') or cha is None:
+            continue
+        b, e, evs, hdr = loop_view(o, f)
+        uas = [a for a in s2.rng if isinstance(a, tuple) and a[0] == 'load' and a[1] == 'HAY' and a[4] == 8]
+        cur = [(nm, v) for nm, v in b.items() if isinstance(v, PtrV) and v.obj == 'HAY']
+        here = [a for a in uas if len(cur) == 1 and s2.is_eq0(a[2] - cur[0][1].off) is True]
+        taken = o.kind == 'ret' and isinstance(o.val, PtrV) and o.val.obj == 'HAY'
+        passed = o.kind == 'backedge'
+        if not (taken or passed):
+            continue
+        if len(here) != 1:
+            und.append('the unit examined in an iteration is not identified')
+            continue
+        models, mixed = unit_models(s2, [here[0], cha])
+        if models is None:
+            und.append('hit test not analysed: %s' % mixed)
+            continue
+        wrong = [mdl for mdl in models if (fold(mdl[here[0]]) == fold(mdl[cha])) != taken]
+        if wrong:
+            w = wrong[0]
+            msg = ('a unit 0x%02X is %s although the character searched for is 0x%02X (%s after folding A-Z to a-z)' %
+                   (w[here[0]] & 0xFF, 'taken as a match' if taken else 'passed over', w[cha] & 0xFF, 'different' if taken else 'equal'))
+            (und if mixed else p2).append(msg)
     if nb == 0 or nr < 2:
         und.append('scan loop not explored (%d back edges, %d returns)' % (nb, nr))
-    verdict(run, 'R07.2', f, p2, und, 'reads inside the haystack; returns the examined position or null at the end', 'char scan')
+    verdict(run, 'R07.2', f, p2, und, 'reads inside the haystack; returns the examined position or null at the end; a unit is taken iff it folds to the wanted character', 'char scan')
     verdict(run, 'R07.3', f, p3, und, 'advances one unit per rejected position', 'char scan')
     return 1
 
